@@ -182,6 +182,9 @@ func parseSubstituteArgs(f slip.Object, s *slip.Scope, args slip.List, depth int
 		switch tv := v.(type) {
 		case slip.Fixnum:
 			sr.count = int(tv)
+			if sr.count < 0 {
+				sr.count = 0
+			}
 		case nil:
 			// leave as -1 for now
 		default:
@@ -215,18 +218,23 @@ func (sr *subRep) replace(seq slip.List) slip.Object {
 }
 
 func (sr *subRep) maybe(seq slip.List, i int) bool {
+	if sr.count <= 0 {
+		return true
+	}
 	v := seq[i]
 	if sr.kc != nil {
 		v = sr.kc.Call(sr.s, slip.List{v}, sr.depth)
 	}
+	// The count limits the replacements, not the elements looked at.
 	if sr.tc != nil {
 		if sr.tc.Call(sr.s, slip.List{sr.old, v}, sr.depth) != nil {
 			seq[i] = sr.rep
+			sr.count--
 		}
 	} else if slip.ObjectEqual(sr.old, v) {
 		seq[i] = sr.rep
+		sr.count--
 	}
-	sr.count--
 	return sr.count <= 0
 }
 
@@ -254,6 +262,9 @@ func (sr *subRep) replaceBytes(seq []byte) slip.Object {
 }
 
 func (sr *subRep) maybeByte(seq []byte, i int) bool {
+	if sr.count <= 0 {
+		return true
+	}
 	var v slip.Object = slip.Octet(seq[i])
 	if sr.kc != nil {
 		v = sr.kc.Call(sr.s, slip.List{v}, sr.depth)
@@ -261,10 +272,11 @@ func (sr *subRep) maybeByte(seq []byte, i int) bool {
 	if sr.tc != nil {
 		if sr.tc.Call(sr.s, slip.List{sr.old, v}, sr.depth) != nil {
 			seq[i] = byte(sr.rep.(slip.Octet))
+			sr.count--
 		}
 	} else if slip.ObjectEqual(sr.old, v) {
 		seq[i] = byte(sr.rep.(slip.Octet))
+		sr.count--
 	}
-	sr.count--
 	return sr.count <= 0
 }
